@@ -209,7 +209,7 @@ class Run:
         if "Model checking completed" not in out:
             raise Infra("TLC failed in diagnosis %s/%s:\n%s" % (module, cfg, tail(out, 60)))
         best = {}
-        for m in re.finditer(r'<<"AT", "([^"]*)", (\d+)(.*?)>>\n', out, re.S):
+        for m in re.finditer(r'<<\s*"AT",\s*"([^"]*)",\s*(\d+)(.*?)>>', out, re.S):
             sid, l, rest = m.group(1), int(m.group(2)), m.group(3)
             if sid not in best or l > best[sid][0]:
                 best[sid] = (l, re.sub(r"\s+", " ", rest).strip(" ,"))
